@@ -72,6 +72,11 @@ def handle (op : String) (args : List String) : Option String :=
     let host ← parseHex host
     let maps ← maps.mapM parseMap
     pure ("ok " ++ unstr (resolve maps (labels host)))
+  | "conf.hms", parts => do
+    let parts ← parts.mapM parseInt
+    match hmsSeconds parts with
+    | some n => pure ("ok " ++ toString n)
+    | none => pure "err"
   | _, _ => none
 
 end Driver.Conf
